@@ -258,13 +258,13 @@ func (ex *Exec) genericZero(d *smt.Term, depth int) *smt.Term {
 	alt := smt.False
 	var app *HashApp
 	for _, a := range ex.hashes {
-		if a.Out == h {
+		if a.Out != nil && a.Out == h {
 			app = a
 		}
 	}
 	if app != nil {
 		for _, o := range ex.hashes {
-			if o == app || o.Kind != app.Kind || len(o.Args) != len(app.Args) || ex.birth[o.Out.Name] >= ex.birth[h.Name] {
+			if o == app || o.Out == nil || o.Kind != app.Kind || len(o.Args) != len(app.Args) || ex.birth[o.Out.Name] >= ex.birth[h.Name] {
 				continue
 			}
 			same := ex.hashArgsEq(app, o)
@@ -332,15 +332,16 @@ func (ex *Exec) bigEq(a, b BigVal) *smt.Term {
 // ---------- hashes ----------
 
 type HashApp struct {
-	Kind string
-	Args []BigVal
-	Out  *smt.Term
+	Kind  string
+	Args  []BigVal
+	Out   *smt.Term   // integer output (nil for byte-wise hashes)
+	Bytes []*smt.Term // output bytes (byte-wise hashes)
 }
 
 func (ex *Exec) hashApply(kind string, args []BigVal, bits uint) *smt.Term {
 	// functional consistency for syntactically identical applications
 	for _, h := range ex.hashes {
-		if h.Kind != kind || len(h.Args) != len(args) {
+		if h.Kind != kind || len(h.Args) != len(args) || h.Out == nil {
 			continue
 		}
 		same := true
@@ -384,45 +385,64 @@ func (ex *Exec) hashAxioms() []*smt.Term {
 	if len(ex.hashes) == 0 {
 		return nil
 	}
+	// pairwise functionality / collision resistance: recomputed only when a hash is added
+	if ex.hashPairN != len(ex.hashes) {
+		for j := ex.hashPairN; j < len(ex.hashes); j++ {
+			for i := 0; i < j; i++ {
+				a, b := ex.hashes[i], ex.hashes[j]
+				if (a.Out == nil) != (b.Out == nil) {
+					continue
+				}
+				var outEq *smt.Term
+				if a.Out != nil {
+					outEq = smt.Eq(a.Out, b.Out)
+				} else {
+					outEq = smt.True
+					for k := range a.Bytes {
+						outEq = smt.And(outEq, smt.Eq(a.Bytes[k], b.Bytes[k]))
+					}
+				}
+				if a.Kind != b.Kind || len(a.Args) != len(b.Args) {
+					ex.hashPairAx = append(ex.hashPairAx, smt.Not(outEq))
+					continue
+				}
+				ex.hashPairAx = append(ex.hashPairAx, smt.Eq(ex.hashArgsEq(a, b), outEq))
+			}
+		}
+		ex.hashPairN = len(ex.hashes)
+		ex.hashAx = nil
+	}
 	if ex.hashAx != nil && ex.hashAxPc == len(ex.pc) {
 		return ex.hashAx
 	}
-	var out []*smt.Term
-	for i := 0; i < len(ex.hashes); i++ {
-		for j := i + 1; j < len(ex.hashes); j++ {
-			a, b := ex.hashes[i], ex.hashes[j]
-			if a.Kind != b.Kind || len(a.Args) != len(b.Args) {
-				out = append(out, smt.Ne(a.Out, b.Out))
-				continue
-			}
-			out = append(out, smt.Eq(ex.hashArgsEq(a, b), smt.Eq(a.Out, b.Out)))
-		}
-	}
+	out := append([]*smt.Term{}, ex.hashPairAx...)
 	// random oracle: an output never equals a variable that was fixed before it was computed
 	if ex.Ob.Param("no_oracle_rule", 0) == 0 {
-		seen := map[int]bool{}
-		var vars []*smt.Term
 		var walk func(t *smt.Term)
 		walk = func(t *smt.Term) {
-			if seen[t.ID] {
+			if ex.oracleSeen[t.ID] {
 				return
 			}
-			seen[t.ID] = true
+			ex.oracleSeen[t.ID] = true
 			if t.Op == smt.OVar && t.Sort == smt.Int && !isHashVar(t) && !strings.Contains(t.Name, "!") && !ex.atoms[t.Name] && ex.modKinds[t.ID] == nil {
 				if t.Hi == nil || t.Hi.BitLen() > 64 {
-					vars = append(vars, t)
+					ex.oracleVars = append(ex.oracleVars, t)
 				}
 			}
 			for _, a := range t.Args {
 				walk(a)
 			}
 		}
-		for _, c := range ex.pc {
+		for _, c := range ex.pc[ex.oraclePcN:] {
 			walk(c)
 		}
+		ex.oraclePcN = len(ex.pc)
 		for _, h := range ex.hashes {
+			if h.Out == nil {
+				continue
+			}
 			hb := ex.birth[h.Out.Name]
-			for _, v := range vars {
+			for _, v := range ex.oracleVars {
 				if b := ex.birth[v.Name]; b > 0 && b < hb {
 					out = append(out, smt.Ne(h.Out, v))
 				}
@@ -430,9 +450,6 @@ func (ex *Exec) hashAxioms() []*smt.Term {
 		}
 	}
 	ex.hashAx = out
-	if out == nil {
-		ex.hashAx = []*smt.Term{}
-	}
 	ex.hashAxPc = len(ex.pc)
 	return ex.hashAx
 }
